@@ -62,6 +62,26 @@ func dial(p *sut.Proc, mods string, flags string) (*C, error) {
 	return &C{Client: cl}, nil
 }
 
+// DialHeaders opens a connection to a lab SUT with further handshake headers.
+func DialHeaders(p *sut.Proc, mods string, header map[string]string) (*C, error) {
+	q := url.Values{"mods": {mods}}
+	if p.RealToken != "" {
+		q = nil
+		if _, ok := header["Authorization"]; !ok {
+			h := map[string]string{"Authorization": "Bearer " + p.RealToken}
+			for k, v := range header {
+				h[k] = v
+			}
+			header = h
+		}
+	}
+	cl, err := d.Dial(int(connSeq.Add(1)), p.Addr, q, header)
+	if err != nil {
+		return nil, err
+	}
+	return &C{Client: cl}, nil
+}
+
 // DialReal opens a connection to the real binary (token in the Authorization header).
 func DialReal(p *sut.Proc, token string) (*C, error) {
 	cl, err := d.Dial(int(connSeq.Add(1)), p.Addr, nil, map[string]string{"Authorization": "Bearer " + token})
